@@ -152,10 +152,10 @@ def grep_forbidden() -> list[str]:
     return hits
 
 
-def run_driver(lines: list[str], timeout=600) -> list[str]:
-    """Pipe protocol lines through the Lean driver, return one reply per line."""
+def run_driver(lines: list[str], timeout=600, main="Main.lean") -> list[str]:
+    """Pipe protocol lines through a Lean driver (lean/<main>), return one reply per line."""
     inp = "\n".join(lines) + "\n"
-    p = subprocess.run(["lake", "env", "lean", "--run", "Main.lean"], cwd=LEAN_DIR, input=inp,
+    p = subprocess.run(["lake", "env", "lean", "--run", main], cwd=LEAN_DIR, input=inp,
                        capture_output=True, text=True, timeout=timeout)
     if p.returncode != 0:
         raise RuntimeError("Lean driver failed: " + p.stderr[-2000:] + p.stdout[-500:])
